@@ -442,3 +442,55 @@ Theorem C08_bind_batch_is_fold : forall eps l c,
                 (fold_left (fun c x => let '(j, t, n, f) := x in fst (bind_task eps c j t n (f =? 1))) l c).
 Proof. exact bind_batch_is_fold. Qed.
 Print Assumptions C08_bind_batch_is_fold.
+
+(* --- third audit (E22/E23): the resync queue of a batch, histories with batches, law 105 --- *)
+Theorem C08_bind_batch_errq : forall eps l c, faults_ok l ->
+  let b := bind_batch eps c l in
+  let f := bfold eps (fun f => f =? 1) l (c, []) in
+  fst f = run eps c (batch_events l) /\
+  same_but_errq (fst b) (fst f) /\ snd b = snd f /\
+  (forall k, k ∈ c_errq (fst b) <-> k ∈ c_errq (fst f)) /\
+  (forall k, k ∈ c_errq (fst b) <->
+     k ∈ c_errq c \/ exists xr, xr ∈ zip l (snd b) /\ snd xr = RDone /\ bfault xr <> 1 /\ bkey xr = k).
+Proof. exact bind_batch_errq. Qed.
+Print Assumptions C08_bind_batch_errq.
+
+Theorem C08_bind_batch_break_refuted :
+  (forall eps c l, same_but_errq (fst (bind_batch_break eps c l)) (fst (bind_batch eps c l)) /\
+                   snd (bind_batch_break eps c l) = snd (bind_batch eps c l)) /\
+  exists c l, faults_ok l /\
+    snd (bind_batch_break eps0 c l) = [RDone; RDone; RDone] /\
+    exists k, k ∈ c_errq (run eps0 c (batch_events l)) /\ k ∈ c_errq (fst (bind_batch eps0 c l)) /\
+              k ∉ c_errq (fst (bind_batch_break eps0 c l)).
+Proof. exact (conj bind_batch_break_same_but_errq bind_batch_break_refuted). Qed.
+Print Assumptions C08_bind_batch_break_refuted.
+
+Theorem C08_bind_batch_keeps : forall eps l c A, faults_ok l ->
+  Inv2 eps c -> QueuedA eps A c -> Cover c ->
+  let c' := fst (bind_batch eps c l) in
+  Inv2 eps c' /\ QueuedA eps (await_run eps c A (batch_events l)) c' /\ Cover c'.
+Proof. exact bind_batch_keeps. Qed.
+Print Assumptions C08_bind_batch_keeps.
+
+Theorem C08_batch_failures_repaired : forall eps h,
+  bhist_ok eps empty_cache h ->
+  let c := drain_resync eps (brun eps empty_cache h) in
+  let A := bawait_run eps empty_cache ∅ h in
+  Inv2 eps c /\
+  (forall i t, c_heap c !! i = Some t -> synced_at eps c i t \/ i ∈ A) /\
+  (forall i p, c_store c !! i = Some p -> i ∈ c_gone c \/ is_Some (c_heap c !! i)).
+Proof. exact batch_failures_repaired. Qed.
+Print Assumptions C08_batch_failures_repaired.
+
+Theorem C08_law105_meaning : forall c keys,
+  law_failed_binds_queued c keys = true <-> forall k, k ∈ keys -> k ∈ c_errq c.
+Proof. exact law_failed_binds_queued_spec. Qed.
+Print Assumptions C08_law105_meaning.
+
+Theorem C08_bind_batch_law105 : forall eps l c, faults_ok l ->
+  let b := bind_batch eps c l in
+  law_failed_binds_queued (fst b) (failed_keys l (snd b)) = true /\
+  forall k, k ∈ c_errq (fst b) <-> k ∈ c_errq c \/ k ∈ failed_keys l (snd b).
+Proof. exact bind_batch_law105. Qed.
+Print Assumptions C08_bind_batch_law105.
+
